@@ -16,14 +16,14 @@ META = {
     'level': 'exploration',
     'engine': 'N',
     'technique': 'exhaustive small-ring enumeration (all token-to-host assignments x DC/rack layouts x replication settings x keys per range) vs Cassandra placement reference',
-    'text': 'All rings with <=4 hosts x <=2 tokens per host (<=2 DCs) and <=3 hosts x <=3 tokens (one DC) in quick; thorough adds 2 DCs for the latter, 5 hosts x <=2 tokens, '
-            '6 hosts x 1 token and single-DC 4 hosts x <=3 tokens; every assignment of the sorted token list to hosts, every layout over <=2 DCs x <=3 '
+    'text': 'All rings with <=4 hosts x <=2 tokens per host (<=2 DCs) and <=3 hosts x <=3 tokens (one DC) in quick; thorough adds 2 DCs for the latter, 5 and 6 hosts x 1 token (<=2 DCs), '
+            'and single-DC rings of 5 hosts x <=2 tokens and 4 hosts x <=3 tokens; every assignment of the sorted token list to hosts, every layout over <=2 DCs x <=3 '
             'racks, SimpleStrategy rf 1-4 and transient 3/1, 2/1, NetworkTopologyStrategy with every per-DC rf in 0..min(4, nodes+1) (quick) / 0..4 (thorough), also for a DC without '
             'nodes, and transient 3/1, 2/1; keys hashing exactly onto each ring token, between each two tokens, before the first and after the '
             'last token.  Oracle: set(Metadata.get_replicas(ks, key)) == set of the reference (Cassandra 4.x calculateNaturalReplicas) and no '
             'host listed twice.  Murmur3 rings for everything, MD5 and ByteOrdered rings for SimpleStrategy.',
     'note': 'The reference is cross-checked against the expectations of tests/unit/test_metadata.py and against a second, 2.x-style '
-            'formulation of NetworkTopologyStrategy on 2.7e5 small rings.  For transient replication the driver reports full replicas only; '
+            'formulation of NetworkTopologyStrategy on 8e4 (quick) / 2.7e5 (thorough) small rings (2.1e6 with python -m vt.spec.placement --full).  For transient replication the driver reports full replicas only; '
             'for NetworkTopologyStrategy only "subset of Cassandra\'s replicas, no repeats" is demanded there.',
     'design_ref': 'C26',
 }
@@ -291,7 +291,7 @@ def run_unit(unit):
 def families(ctx):
     fams = [(4, 2, 2), (3, 3, 1)]
     if ctx.thorough:
-        fams = [(4, 2, 2), (3, 3, 2), (5, 2, 2), (6, 1, 2), (4, 3, 1)]
+        fams = [(4, 2, 2), (3, 3, 2), (5, 1, 2), (6, 1, 2), (5, 2, 1), (4, 3, 1)]
     seen = set()
     work = []
     for mh, mt, max_dcs in fams:
@@ -305,7 +305,7 @@ def families(ctx):
 
 def run(ctx):
     P.selftest()
-    PL.selftest()
+    PL.selftest(light=ctx.quick)
     fams, work = families(ctx)
     work = ctx.rotate(work)
     # cost of a sequence grows steeply with its host count: deal them round-robin into many units
